@@ -79,7 +79,7 @@ def cmd_import(prop, wt):
     if os.path.exists(notes):
         shutil.copy(notes, os.path.join(d, 'notes.md'))
     m = load_meta(prop)
-    m['property'] = prop
+    m['property'] = prop[:3]
     m['origin_path'] = wt
     m['how_to_run_demo'] = ('tools/seeded.py verify %s --no-suite  (lays pexpect/ + SEED/demo.py out at %s, with and '
                             'without patch.diff, and runs `cd %s && /venv/bin/python SEED/demo.py`)' % (prop, wt, wt))
@@ -158,18 +158,23 @@ def cmd_detect(prop, checks):
         shutil.rmtree(tmp, ignore_errors=True)
 
 
+def _norm(x):
+    # seed ids: C01, and C01B / C01b for a second seed of the same property
+    return x[:3].upper() + x[3:].lower()
+
+
 def main():
     a = sys.argv[1:]
     if len(a) < 2:
         print(__doc__)
         return 2
     if a[0] == 'import':
-        cmd_import(a[1].upper(), a[2])
+        cmd_import(_norm(a[1]), a[2])
     elif a[0] == 'verify':
-        cmd_verify(a[1].upper(), run_suite='--no-suite' not in a)
+        cmd_verify(_norm(a[1]), run_suite='--no-suite' not in a)
     elif a[0] == 'detect':
-        prop = a[1].upper()
-        cmd_detect(prop, [c.upper() for c in a[2:]] or [prop])
+        prop = _norm(a[1])
+        cmd_detect(prop, [c.upper() for c in a[2:]] or [prop[:3]])
     return 0
 
 
